@@ -111,7 +111,12 @@ class Deque(
             if isinstance(self.items, Field):
                 return [self.items.serialize(x) for x in value]
             elif isinstance(self.items, list):
-                return [self.items[i].serialize(x) for (i, x) in enumerate(value)]
+                # elements beyond the positional items are untyped: they are passed through as they are
+                items = self.items
+                return [
+                    items[i].serialize(x) if i < len(items) else deepcopy(x)
+                    for (i, x) in enumerate(value)
+                ]
         return deepcopy(list(value))
 
 
